@@ -236,6 +236,9 @@ def props_of(conj, sig, group):
     kind = sig.get('kind', '-')
     op = sig.get('op', '-')
     ps = set()
+    if kind == 'hostiledir':
+        ps.add('C13')
+        return ps
     if kind == 'confine':
         ps.add('C07')
         if conj == 'nopanic':
